@@ -80,4 +80,25 @@ def analyse (net : Nat → Env) (K : CharClass) (ext : Bool) (ctxSets : List (Na
       | .error (.panic s) => .panic s
       | .ok rs => .results k trees rs
 
+/-! ### what the tool prints about a result (`summarize_results`, `print_results_full`) -/
+
+/-- the point of `(state, colour)` with all variable slots at state 0 (results of closed formulae do not depend on them) -/
+def zeroPt (G : Graph) (s c : Nat) : Point := ⟨s, c, List.replicate G.k 0⟩
+
+def allPairs (G : Graph) : List (Nat × Nat) :=
+  (List.range G.nS).flatMap fun s => (List.range G.nC).map fun c => (s, c)
+
+def pairsOf (G : Graph) (r : CSet) : List (Nat × Nat) :=
+  (allPairs G).filter fun sc => r (zeroPt G sc.1 sc.2)
+
+/-- "N results in total", "N unique colors", "N unique states" -/
+def counts (G : Graph) (r : CSet) : Nat × Nat × Nat :=
+  ((pairsOf G r).length,
+   ((List.range G.nC).filter fun c => (List.range G.nS).any fun s => r (zeroPt G s c)).length,
+   ((List.range G.nS).filter fun s => (List.range G.nC).any fun c => r (zeroPt G s c)).length)
+
+/-- the states listed in exhaustive mode: those in the result for at least one colour -/
+def listed (G : Graph) (r : CSet) : List Nat :=
+  (List.range G.nS).filter fun s => (List.range G.nC).any fun c => r (zeroPt G s c)
+
 end Hctl.Cli
